@@ -167,7 +167,21 @@ class Exec(Ops):
   def assume(self, f):
     if isinstance(f, bool):
       f = zbool(f)
+    if self.bound_vars:
+      # a defining fact produced under binders: universally closed over the bound variables
+      f = z3.ForAll(list(self.bound_vars), f)
     self.pc.append(f)
+
+  def push_binders(self, bvs):
+    from . import sorts as _s
+    self.bound_vars.extend(bvs)
+    _s.BINDERS.extend(bvs)
+
+  def pop_binders(self, n):
+    from . import sorts as _s
+    if n:
+      del self.bound_vars[-n:]
+      del _s.BINDERS[-n:]
 
   def all_assumptions(self):
     lits = []
@@ -496,11 +510,33 @@ class Exec(Ops):
         if isinstance(v, SV) and getattr(v.sort, 'star_opaque', False):
           out.append(StarOf(v))  # (*path, 'key'): kept symbolic, consumed by a summary
           continue
+        if isinstance(v, SV) and isinstance(v.sort, SeqOf):
+          out.append(StarOf(v))
+          continue
         if not isinstance(v, PyTuple):
           raise OutsideSubset('star-unpacking of a symbolic-length sequence')
         out.extend(v)
       else:
         out.append(self.eval(e, env))
+    if any(isinstance(x, StarOf) and isinstance(x.v.sort, SeqOf) for x in out):
+      # (a, *rest): concatenation of the static parts with the symbolic-length sequences
+      sq = next(x.v.sort for x in out if isinstance(x, StarOf) and isinstance(x.v.sort, SeqOf))
+      acc = None
+      run = []
+
+      def flush(acc, run):
+        if run:
+          piece = self.seq_from_items(run, sq.elem)
+          acc = piece if acc is None else self.seq_concat(acc, piece)
+        return acc
+      for x in out:
+        if isinstance(x, StarOf):
+          acc = flush(acc, run)
+          run = []
+          acc = x.v if acc is None else self.seq_concat(acc, x.v)
+        else:
+          run.append(x)
+      return flush(acc, run)
     return PyTuple(out)
 
   def e_List(self, n, env):
@@ -556,7 +592,12 @@ class Exec(Ops):
     return Box(ident)
 
   def e_Subscript(self, n, env):
-    base = self.deref(self.eval(n.value, env))
+    raw = self.eval(n.value, env)
+    if isinstance(raw, Box) and not isinstance(n.slice, ast.Slice) and not self.spec_mode:
+      cont = self.deref(raw)
+      if isinstance(cont, SV) and isinstance(cont.sort, (SeqOf, MapOf)) and (cont.sort.elem if isinstance(cont.sort, SeqOf) else cont.sort.val).mutable:
+        return self.getitem(raw, self.eval(n.slice, env))
+    base = self.deref(raw)
     if isinstance(base, SV) and isinstance(base.sort, Union):
       base = self.unwrap(base)
     if isinstance(n.slice, ast.Slice):
@@ -580,6 +621,21 @@ class Exec(Ops):
     return self.getitem(base, idx)
 
   def getitem(self, base, idx):
+    if isinstance(base, Box) and not self.spec_mode:
+      cont = self.deref(base)
+      if isinstance(cont, SV) and isinstance(cont.sort, SeqOf) and cont.sort.elem.mutable:
+        i = self.coerce(idx, INT).t
+        n = cont.sort.len(cont.t)
+        self.oblige(z3.And(i >= -n, i < n), 'safety:index')
+        self.assume(z3.And(i >= -n, i < n))
+        return Box(('item', base.ident, z3.If(i < 0, i + n, i), None))
+      if isinstance(cont, SV) and isinstance(cont.sort, MapOf) and cont.sort.val.mutable:
+        k = self.coerce(idx, cont.sort.key).t
+        dflt = getattr(cont.sort, 'default_factory', None)
+        if dflt is None:
+          self.oblige(cont.sort.has(cont.t, k), 'safety:key')
+          self.assume(cont.sort.has(cont.t, k))
+        return Box(('item', base.ident, k, dflt() if dflt is not None else None))
     base, idx = self.deref(base), self.deref(idx)
     if isinstance(base, _ObjCase) and base.ctor.tuple_like and isinstance(idx, int):
       fn = base.ctor.fields[idx][0]
